@@ -192,14 +192,13 @@ func SNP(golden *epb.VMGoldenMeasurement, opts *SNPOptions) error {
 		if m == nil {
 			return ErrNoSevSnpMeasurements
 		}
-		var measure []byte
-		var ok bool
-		if opts.ExpectedLaunchVMSAs == 1 {
-			measure = snp.SvsmMeasurement
-			ok = len(measure) > 0
-		} else {
-			measure, ok = m[opts.ExpectedLaunchVMSAs]
+		// A single-VMSA launch is either an SVSM launch or an AP-boot launch of the firmware, whose
+		// measurement is listed under the VMSA count like any other.
+		if opts.ExpectedLaunchVMSAs == 1 && len(snp.SvsmMeasurement) > 0 &&
+			bytes.Equal(snp.SvsmMeasurement, opts.Measurement) {
+			return nil
 		}
+		measure, ok := m[opts.ExpectedLaunchVMSAs]
 		if !ok {
 			return fmt.Errorf("no golden measurement for %d launch VMSAs", opts.ExpectedLaunchVMSAs)
 		}
